@@ -22,7 +22,7 @@ ExpClause(e) ==
     [] e.err_rot > TolRot(e.dt)                    -> "rotation_scale_block"
     [] e.zero_in /\ ~e.identity_out                -> "exp_zero_not_identity"
     [] e.err_trans > TolTrans(e.dt)                -> "translation_block"
-    [] e.err_trans > 0 /\ ErrE(e.dt, e.err_trans) > PredTransE(e.ty, e.dt, e.eT, e.eS, e.gT, e.gS) + Slack -> "worse_than_model"
+    [] e.err_trans > 0 /\ ErrE(e.dt, e.err_trans) > PredTransE(e.ty, e.dt, e.eT, e.eS, e.gT, e.gS, e.sT, e.sS) + Slack -> "worse_than_model"
     [] OTHER -> "ok"
 
 \* C02.  awayPi: the rotation angle of X is at most pi - 1e-6 (the relations are only required there)
